@@ -343,6 +343,13 @@ def parse_file(path, rel, ctx, pass_no, raw_items):
                         trait = cand
                 if trait:
                     raw_items.append(("impl", trait, target, modstack[-1], params, gb + wb, unsafe))
+                else:
+                    # impl of a trait declared by the crate (e.g. `Timer`): its bounds guard what the
+                    # trait's methods may hand out
+                    head = first[:first.index("<")] if "<" in first else first
+                    names = [t for t in head if re.match(r"[A-Za-z_]", t)]
+                    if names:
+                        raw_items.append(("timpl", names[-1], target, modstack[-1], params, gb + wb, unsafe))
             pending_attr_skip = False; is_pub = False
             continue
         if x == "{":
@@ -511,6 +518,33 @@ def main():
                     bl.append((pos[name], b))
         impls.append((trait, q, sorted(set(bl))))
 
+    timpls = []
+    for it in raw:
+        if it[0] != "timpl":
+            continue
+        _, tname, target, mod, iparams, bounds, unsafe = it
+        if tname not in ctx.dyn_traits:
+            continue
+        res = resolver(mod)
+        tt = [t for t in target if not t.startswith("'")]
+        j, segs = 0, []
+        while j < len(tt) and tt[j] != "<":
+            if tt[j] != "::":
+                segs.append(tt[j])
+            j += 1
+        if not segs:
+            continue
+        q = res(segs[-1])
+        if q is None or q not in sdict:
+            continue
+        args = []
+        if j < len(tt) and tt[j] == "<":
+            rawargs, _ = angle_args(tt, j)
+            args = [a for a in rawargs if a and not a[0].startswith("'")]
+        pos = {a[0]: k for k, a in enumerate(args) if len(a) == 1}
+        bl = sorted(set((pos[n], b) for n, bs in bounds for b in bs if b in ("Send", "Sync", "Unpin") and n in pos))
+        timpls.append((tname, q, bl))
+
     with open(out, "w") as f:
         f.write("(* GENERATED by tools/rs2coq_types.py from %s on every run -- do not edit. *)\n" % srcdir)
         f.write("From Coq Require Import List String.\nFrom FI Require Import AutoTraits.\nImport ListNotations.\nOpen Scope string_scope.\n\n")
@@ -523,7 +557,10 @@ def main():
         rows = []
         for trait, q, bl in impls:
             rows.append("  mkI %s \"%s\" [%s]" % (trait, q, "; ".join("(%d, %s)" % b for b in bl)))
-        f.write(";\n".join(rows) + "\n].\n")
+        f.write(";\n".join(rows) + "\n].\n\n")
+        f.write("Definition trait_impls : list timpl := [\n")
+        f.write(";\n".join("  mkT \"%s\" \"%s\" [%s]" % (t, q, "; ".join("(%d, %s)" % b for b in bl)) for t, q, bl in timpls))
+        f.write("\n].\n")
     import json
     info = []
     for q, params, fields, is_pub in structs:
@@ -533,7 +570,8 @@ def main():
             bs = [b for (n, bl) in m["bounds"] if n == pn for b in bl]
             kinds.append("mutex" if "RawMutex" in bs or pn == "MutexType" else ("ringbuf" if "RingBuf" in bs else "plain"))
         info.append(dict(name=q, lifetimes=m["lifetimes"], params=params, kinds=kinds, public=is_pub, future=q in futures))
-    json.dump(dict(types=info, impls=[dict(trait=t, target=q, bounds=bl) for t, q, bl in impls]),
+    json.dump(dict(types=info, impls=[dict(trait=t, target=q, bounds=bl) for t, q, bl in impls],
+                   trait_impls=[dict(trait=t, target=q, bounds=bl) for t, q, bl in timpls]),
               open(os.path.splitext(out)[0] + ".json", "w"), indent=1)
     print("rs2coq_types: %d types, %d Send/Sync impls, %d futures/streams -> %s" % (len(structs), len(impls), len(futures), out))
 
